@@ -295,7 +295,7 @@ pub fn check_family_text(fam: &Family) -> Vec<String> {
 pub struct C16Result { pub families: u64, pub dbs: u64, pub nontrivial: u64, pub violations: Vec<Value>, pub samples: Vec<Value>, pub capped: bool }
 
 /// Enumerates labelled databases for the premise relations of one family, smallest first.
-fn enumerate_dbs(th: &Theory, fam: &Family, max_rows_per_rel: usize, cap: usize) -> (Vec<LabelledDb>, bool) {
+fn enumerate_dbs(th: &Theory, fam: &Family, max_rows_per_rel: usize, cap: usize, visit: &mut dyn FnMut(&LabelledDb) -> bool) -> bool {
     let premise = &fam.subs[0].premise;
     let mut rels: BTreeSet<usize> = BTreeSet::new();
     let mut tys: BTreeSet<usize> = BTreeSet::new();
@@ -345,7 +345,7 @@ fn enumerate_dbs(th: &Theory, fam: &Family, max_rows_per_rel: usize, cap: usize)
         for (i, sub) in subsets.iter().enumerate() { v[sub.len()].push(i); }
         by_size.push(v);
     }
-    let mut out = Vec::new();
+    let mut emitted = 0usize;
     let mut capped = false;
     let max_total = max_rows_per_rel * rels.len();
     'outer: for total in 0..=max_total {
@@ -369,8 +369,9 @@ fn enumerate_dbs(th: &Theory, fam: &Family, max_rows_per_rel: usize, cap: usize)
                     // a tuple cannot be older than one of its elements
                     let consistent = db.tuples.iter().enumerate().all(|(r, rows)| rows.iter().all(|(row, is_new)| *is_new || row.iter().enumerate().all(|(p, &x)| !db.elem_new[th.rels[r].arity[p]][x as usize])));
                     if !consistent { continue; }
-                    out.push(db);
-                    if out.len() >= cap { capped = true; break 'outer; }
+                    emitted += 1;
+                    if !visit(&db) { break 'outer; }
+                    if emitted >= cap { capped = true; break 'outer; }
                 }
                 let mut k = 0;
                 loop {
@@ -382,7 +383,7 @@ fn enumerate_dbs(th: &Theory, fam: &Family, max_rows_per_rel: usize, cap: usize)
             }
         }
     }
-    (out, capped)
+    capped
 }
 
 pub fn run_theory(th: &Theory, e: &Entry, max_rows: usize, cap: usize, skip_functionality: bool) -> C16Result {
@@ -401,15 +402,18 @@ pub fn run_theory(th: &Theory, e: &Entry, max_rows: usize, cap: usize, skip_func
         for msg in check_family_text(fam) {
             res.violations.push(json!({"sig": format!("{}:c16:text:{}", th.name, fam.name), "summary": format!("[{}] {}", th.name, msg), "replay": {"theory": th.name, "family": fam.name, "static": true}}));
         }
-        let (dbs, capped) = enumerate_dbs(th, fam, max_rows, cap);
-        res.capped |= capped;
-        for db in &dbs {
+        let mut sample: Option<Value> = None;
+        let mut stop_family = false;
+        let capped = enumerate_dbs(th, fam, max_rows, cap, &mut |db: &LabelledDb| -> bool {
             res.dbs += 1;
             let n_rows: usize = db.tuples.iter().map(|v| v.len()).sum();
-            if n_rows >= fam.subs[0].premise.len().min(2) { res.nontrivial += 1; }
+            if n_rows >= fam.subs[0].premise.len().min(2) {
+                res.nontrivial += 1;
+                if sample.is_none() && res.dbs % 7 == 3 { sample = Some(db.to_json(th)); }
+            }
             match check_db(th, e.make, &fams, db) {
                 Ok(()) => {}
-                Err(msg) if msg.contains("enum elements cannot") => { break; }
+                Err(msg) if msg.contains("enum elements cannot") => { stop_family = true; }
                 Err(msg) => {
                     let sig = format!("{}:c16:{}:{}", th.name, fam.name, crate::explorer::short_sig(&msg));
                     if sigs.insert(sig.clone()) && res.violations.len() < 30 {
@@ -418,8 +422,10 @@ pub fn run_theory(th: &Theory, e: &Entry, max_rows: usize, cap: usize, skip_func
                     }
                 }
             }
-        }
-        if res.samples.len() < 2 { if let Some(db) = dbs.get(dbs.len() / 2) { res.samples.push(json!({"theory": th.name, "family": fam.name, "sub_rules": fam.subs.iter().map(|s| s.name.clone()).collect::<Vec<_>>(), "db": db.to_json(th)})); } }
+            !stop_family
+        });
+        res.capped |= capped;
+        if res.samples.len() < 2 { if let Some(db) = sample { res.samples.push(json!({"theory": th.name, "family": fam.name, "sub_rules": fam.subs.iter().map(|s| s.name.clone()).collect::<Vec<_>>(), "db": db})); } }
     }
     res
 }
